@@ -190,3 +190,8 @@ def _conn_serde_shape(src):
 
 
 const("connected_peers_serde_is_elementwise", "ant-service-management/src/node.rs", _conn_serde_shape, ty="bool")
+
+
+# ---- ant-logging: how --max-log-files / --max-archived-log-files become the appender's limits
+const("log_default_uncompressed", "ant-logging/src/layers.rs", r"const MAX_UNCOMPRESSED_LOG_FILES: usize = (\d+);")
+const("log_default_total", "ant-logging/src/layers.rs", r"const MAX_LOG_FILES: usize = (\d+);")
